@@ -702,9 +702,51 @@ func genIntTextGrid(p func(string, ...any)) {
 	}
 }
 
+// integer VALUES at the edges of int64 and uint64, as plain CBOR integers in either bucket and as
+// bignums in the protected bucket: whatever the decoder accepts must survive decode / discard raw /
+// encode cycles (the encoder must write each value back in a form the decoder of THAT bucket accepts)
+func genIntEdgeGrid(p func(string, ...any)) {
+	payload := []byte{0x50}
+	plain := []*W{
+		{M: 0, HW: 8, N: 1<<63 - 1}, {M: 0, HW: 8, N: 1 << 63}, {M: 0, HW: 8, N: 1<<64 - 1},
+		{M: 1, HW: 8, N: 1<<63 - 1}, {M: 1, HW: 8, N: 1 << 63}, {M: 1, HW: 8, N: 1<<63 + 1}, {M: 1, HW: 8, N: 1<<64 - 1},
+	}
+	big := []*W{
+		wTag(2, wBstr([]byte{0x7f, 0xff, 0xff, 0xff, 0xff, 0xff, 0xff, 0xff})), wTag(2, wBstr([]byte{0x80, 0, 0, 0, 0, 0, 0, 0})),
+		wTag(2, wBstr([]byte{0xff, 0xff, 0xff, 0xff, 0xff, 0xff, 0xff, 0xff})), wTag(2, wBstr([]byte{1, 0, 0, 0, 0, 0, 0, 0, 0})),
+		wTag(3, wBstr([]byte{0x7f, 0xff, 0xff, 0xff, 0xff, 0xff, 0xff, 0xff})), wTag(3, wBstr([]byte{0x80, 0, 0, 0, 0, 0, 0, 1})),
+		wTag(3, wBstr([]byte{0xff, 0xff, 0xff, 0xff, 0xff, 0xff, 0xff, 0xff})), wTag(3, wBstr([]byte{1, 0, 0, 0, 0, 0, 0, 0, 0})),
+		wTag(2, wBstr([]byte{})), wTag(2, wBstr([]byte{0, 0, 5})),
+	}
+	emit := func(prot, unprot *W) {
+		content := prot.enc()
+		sig := tsig(1, refTBS1(content, []byte{}, payload))
+		msg := wTag(18, wArr(wBstr(content), unprot, wBstr(payload), wBstr(sig)))
+		h := hexs(msg.enc())
+		p("dec s1 %s", h)
+		for _, mode := range []string{"keep", "clear", "trunc"} {
+			p("reenc s1 %s %s 3", h, mode)
+		}
+		sg := wArr(wBstr(content), unprot.clone(), wBstr([]byte{7}))
+		p("reenc sig %s clear 3", hexs(sg.enc()))
+		p("reenc sm %s clear 3", hexs(wTag(98, wArr(wBstr([]byte{}), unprot.clone(), wBstr(payload), wArr(sg.clone()))).enc()))
+	}
+	for _, v := range plain {
+		emit(wMap(wInt(1), wInt(-7), wInt(99), v.clone()), wMap())
+		emit(wMap(wInt(1), wInt(-7)), wMap(wInt(99), v.clone()))
+		emit(wMap(wInt(1), wInt(-7)), wMap(wInt(99), wArr(wInt(1), v.clone())))
+		emit(wMap(wInt(1), wInt(-7), wTstr("x"), wMap(wInt(1), v.clone())), wMap())
+	}
+	for _, v := range big {
+		emit(wMap(wInt(1), wInt(-7), wInt(99), v.clone()), wMap())
+		emit(wMap(wInt(1), wInt(-7), wInt(99), wArr(v.clone(), wInt(2))), wMap())
+	}
+}
+
 func genTbsGrid(p func(string, ...any)) {
 	genTagGrid(p)
 	genIntTextGrid(p)
+	genIntEdgeGrid(p)
 	targets := []int{0, 1, 22, 23, 24, 25, 254, 255, 256, 257, 65535, 65536}
 	widths := []int{-1, 1, 2, 4, 8}
 	payload := []byte{0x50}
